@@ -336,13 +336,26 @@ def r65(ctx, fx):
     ctx.inst(rid, key2)
     body = f.hir["body"]
     ok = False
-    for n in lib.hwalk(body):
+
+    def outside_loops(n):
+        """`if` nodes that are not nested inside a loop (the `while` itself desugars to loop { if cond {…} else { break } })"""
+        if isinstance(n, list):
+            for x in n:
+                yield from outside_loops(x)
+            return
+        if not isinstance(n, dict) or n.get("k") in ("loop", "closure"):
+            return
         if n.get("k") == "if":
-            c = lib.hdesc(n["cond"])
-            flat = repr(c)
-            if "pass_idx" in flat and ("MAX_ITERATIONS" in flat or str(bound) in flat):
-                if any(lib.pm(p, "Diagnostic::error") for _, p in lib.hir_calls(n["then"])):
-                    ok = True
+            yield n
+        for v in n.values():
+            if isinstance(v, (dict, list)):
+                yield from outside_loops(v)
+    for n in outside_loops(body):
+        c = lib.hdesc(n["cond"])
+        flat = repr(c)
+        if "pass_idx" in flat and ("MAX_ITERATIONS" in flat or str(bound) in flat):
+            if any(lib.pm(p, "Diagnostic::error") for _, p in lib.hir_calls(n["then"])):
+                ok = True
     if not ok:
         ctx.finding(rid, key2, "leaving the pass loop because the bound was reached reports no diagnostic (the build would succeed with an unsettled layout)", f.where)
 
